@@ -182,13 +182,14 @@ def orientation_leg(run, tmp):
     """
     import warnings
     from homonim import RasterCompare
+    from homonim.errors import BlockSizeError
     pow2 = lambda n: n > 0 and n & (n - 1) == 0
     n = 3 if run.quick() else 24
     for k in range(n):
         rng = run.rng(f'orient{k}')
         for _ in range(200):
             src, ref = rasters.pair_geometry(rng, 'dyadic', 'auto', max_src=22, margin=(1, 3))
-            if pow2(src.px) and pow2(ref.px):
+            if pow2(src.px) and pow2(ref.px) and min(src.w, src.h) * src.px >= 6 * max(src.px, ref.px):
                 break
         else:
             continue
@@ -214,6 +215,9 @@ def orientation_leg(run, tmp):
                     warnings.simplefilter('ignore')
                     with RasterCompare(sp, rp) as cmp:
                         stats = cmp.process(threads=1, max_block_mem=100)
+            except BlockSizeError:
+                run.hist['processing window smaller than the overlap: skipped'] += 1
+                break
             except Exception as ex:
                 run.fail(case, f'raised {type(ex).__name__}: {ex}', signature=dict(kind='raises'))
                 continue
@@ -245,6 +249,8 @@ def rewrite_leg(run, tmp):
     for k, dtype in enumerate(['float32', 'uint8']):
         rng = run.rng(f'rewrite{k}')
         src, ref = rasters.pair_geometry(rng, 'dyadic', 'auto', max_src=22, margin=(1, 2))
+        while min(src.w, src.h) * src.px < 6 * max(src.px, ref.px):      # (the processing window must hold the 3 x 3 kernel's overlap)
+            src, ref = rasters.pair_geometry(rng, 'dyadic', 'auto', max_src=22, margin=(1, 2))
         nb = 1
         s = np.array([[[rng.randint(20, 200) for _ in range(src.w)] for _ in range(src.h)]], float)
         r = np.array([[[rng.randint(30, 150) for _ in range(ref.w)] for _ in range(ref.h)]], float)
@@ -260,6 +266,10 @@ def rewrite_leg(run, tmp):
             try:
                 res = fusion.run_fuse(sp, rp, tmp / 'c08_rw_o.tif', model='gain-blk-offset', kernel_shape=(3, 3), param=True, threads=1)
             except Exception as ex:
+                from homonim.errors import BlockSizeError
+                if isinstance(ex, BlockSizeError):
+                    run.hist['processing window smaller than the overlap: skipped'] += 1
+                    break
                 run.fail(case, f'raised {type(ex).__name__}: {ex}', signature=dict(kind='raises'))
                 break
             run.evaluations += 1
